@@ -53,7 +53,8 @@ unsigned long DSAPublicKey::getBitLength() const
 // Get the output length
 unsigned long DSAPublicKey::getOutputLength() const
 {
-	return getQ().size() * 2;
+	// Use the size of the value of Q, not of its encoding (which may have leading zero octets)
+	return ((getQ().bits() + 7) / 8) * 2;
 }
 
 // Setters for the DSA public key components
